@@ -181,8 +181,33 @@ def bits_eval(bits):
                 return table[t[len(pre):]]
         if isinstance(e, ast.Name) and e.id in bits.get('consts', {}):
             return bits['consts'][e.id]
+        # an all-ones mask over the whole run kept on the shared Int (I.mask = 2**total - 1): it
+        # keeps every bit of the run, which is all the members' slices live in
+        if t.startswith('self.I.') and t[len('self.I.'):] in _RUN_MASKS:
+            return bp.Ones([(bp.L(0), bp.INF)])
         return None
     return bp.Eval(leaf)
+
+
+_RUN_MASKS = set()
+
+
+def _find_run_masks(ci):
+    """attributes of the shared Int that Bits._compile sets to 2**<total width> - 1"""
+    _RUN_MASKS.clear()
+    comp = ci.methods.get('_compile')
+    if comp is None:
+        return
+    for n in ast.walk(comp.node):
+        if isinstance(n, ast.Assign) and len(n.targets) == 1 and isinstance(n.targets[0], ast.Attribute) and isinstance(n.targets[0].value, ast.Name) and n.targets[0].value.id != 'self':
+            v = n.value
+            if isinstance(v, ast.BinOp) and isinstance(v.op, ast.Sub) and isinstance(v.right, ast.Constant) and v.right.value == 1:
+                b = v.left
+                pow2 = (isinstance(b, ast.BinOp) and isinstance(b.op, ast.Pow) and isinstance(b.left, ast.Constant) and b.left.value == 2) or \
+                       (isinstance(b, ast.BinOp) and isinstance(b.op, ast.LShift) and isinstance(b.left, ast.Constant) and b.left.value == 1)
+                # the exponent is the accumulated width of the run (the variable the loop adds every bit_count to)
+                if pow2 and isinstance(b.right, ast.Name) and any(isinstance(a, ast.AugAssign) and isinstance(a.target, ast.Name) and a.target.id == b.right.id and isinstance(a.op, ast.Add) for a in ast.walk(comp.node)):
+                    _RUN_MASKS.add(n.targets[0].attr)
 
 
 def check_compile(ctx, ci):
@@ -421,6 +446,7 @@ def check_unpack(ctx, ci, bits='derive'):
 
 
 def check_pack(ctx, ci, bits='derive'):
+    _find_run_masks(ci)
     repo = ctx.repo
     bits = _derive(ctx, ci) if bits == 'derive' else bits
     fi = ci.methods.get('pack')
@@ -599,6 +625,7 @@ def check(ctx):
     repo = ctx.repo
     check_declaration_order(ctx)
     ci = repo.cls('Bits')
+    _find_run_masks(ci)
     for m in ('_compile', 'init', 'unpack', 'pack'):
         if m not in ci.methods:
             raise Undecided('anchor Bits.%s not found' % m)
